@@ -304,6 +304,8 @@ def check_trimmed(case, ctx):
 
 def _in_tri(q, t):
     a, b, c = t
+    if abs(_orient2(a, b, c)) <= 1e-14:
+        return False        # a zero-area sliver covers nothing
     d1, d2, d3 = _orient2(a, b, q), _orient2(b, c, q), _orient2(c, a, q)
     eps = 1e-12
     return (d1 >= -eps and d2 >= -eps and d3 >= -eps) or (d1 <= eps and d2 <= eps and d3 <= eps)
